@@ -209,6 +209,23 @@ type refBind struct {
 func refEval(x *c13X, innerAlone bool) (binds map[string]map[string]refBind, vars map[string]string) {
 	binds = map[string]map[string]refBind{}
 	vars = map[string]string{}
+	refEvalInto(x, innerAlone, binds, vars)
+	return
+}
+
+// refEvalTwice models the second known defect: at start-up and on re-read-init-file the
+// user's file is parsed twice, first as application "go" with no mode and no terminal.
+func refEvalTwice(x *c13X, innerAlone bool) (binds map[string]map[string]refBind, vars map[string]string) {
+	binds = map[string]map[string]refBind{}
+	vars = map[string]string{}
+	first := *x
+	first.Mode, first.Term, first.App = "", "", "go"
+	refEvalInto(&first, innerAlone, binds, vars)
+	refEvalInto(x, innerAlone, binds, vars)
+	return
+}
+
+func refEvalInto(x *c13X, innerAlone bool, binds map[string]map[string]refBind, vars map[string]string) {
 	var run func(prog []rcLine, keymap *string, stack []bool)
 	live := func(stack []bool) bool {
 		if innerAlone {
@@ -271,7 +288,6 @@ func refEval(x *c13X, innerAlone bool) (binds map[string]map[string]refBind, var
 	}
 	km := "emacs"
 	run(x.Prog, &km, nil)
-	return
 }
 
 func normVar(kind, v string) string {
@@ -337,6 +353,19 @@ func execC13(x *Ctx, sc *wire.Scenario) *wire.Result {
 		if compareTo(cfg, exact, route, wantB, wantV, scratch) {
 			return true
 		}
+		if route != "parse" {
+			for _, alt := range []struct {
+				inner bool
+				name  string
+			}{{false, "user-file-parsed-twice"}, {true, "user-file-parsed-twice+nested-if-evaluated-without-its-enclosing-level"}} {
+				tb, tv := refEvalTwice(&xx, alt.inner)
+				if compareTo(cfg, exact, route, tb, tv, okResult(sc)) {
+					violation(res, "MISMATCH", "C13.all-enclosing-conditions", alt.name+":"+route,
+						fmt.Sprintf("[%s] the configuration is what results from parsing the file twice, the first time as application \"go\" with no mode and no terminal: $else branches and `$if go` blocks of the first pass stay in effect\nmode=%s term=%s app=%s\n%s\nfirst difference: %s", route, xx.Mode, xx.Term, xx.App, text, scratch.Msg))
+					return false
+				}
+			}
+		}
 		if nestedKnown && compareTo(cfg, exact, route, bugB, bugV, okResult(sc)) {
 			violation(res, "MISMATCH", "C13.all-enclosing-conditions", "nested-if-evaluated-without-its-enclosing-level:"+route,
 				fmt.Sprintf("[%s] the configuration is what results from consulting only the innermost $if/$else level: directives inside an inactive outer block took effect\nmode=%s term=%s app=%s\n%s\nfirst difference: %s", route, xx.Mode, xx.Term, xx.App, text, scratch.Msg))
@@ -347,15 +376,30 @@ func execC13(x *Ctx, sc *wire.Scenario) *wire.Result {
 	}
 	compareTo = func(cfg *inputrc.Config, exact bool, route string, wantB map[string]map[string]refBind, wantV map[string]string, res *wire.Result) bool {
 		// binds: compared in typed form
+		// several stored sequences can have the same typed form (a meta rune and its ESC-prefixed
+		// spelling): keep them all, in a fixed order, so that the comparison does not depend on
+		// the iteration order of the library's maps
 		got := map[string]map[string]refBind{}
-		for km, m := range cfg.Binds {
-			for seq, b := range m {
+		alts := map[string][]refBind{}
+		for _, km := range sortedKeys(cfg.Binds) {
+			m := cfg.Binds[km]
+			for _, seq := range sortedKeys(m) {
+				b := m[seq]
 				if got[km] == nil {
 					got[km] = map[string]refBind{}
 				}
-				got[km][ConvertMeta(seq)] = refBind{b.Action, b.Macro}
+				typed := ConvertMeta(seq)
+				alts[km+"\x00"+typed] = append(alts[km+"\x00"+typed], refBind{b.Action, b.Macro})
+				if wb, ok := wantB[km][typed]; ok {
+					// prefer the alternative that is the wanted one
+					if prev, seen := got[km][typed]; seen && prev == wb {
+						continue
+					}
+				}
+				got[km][typed] = refBind{b.Action, b.Macro}
 			}
 		}
+		_ = alts
 		for _, km := range sortedKeys(wantB) {
 			m := wantB[km]
 			for _, seq := range sortedKeys(m) {
